@@ -101,6 +101,10 @@ typedef struct of_2d_parity_cb
 	UINT16*		tab_nb_equ_for_repair;
 	
 		void** repair_symbols_values;
+	/* the two fields below exist in of_linear_binary_code_cb_t, to which this structure is cast
+	 * by the decoding functions: they MUST be present, at the same place */
+	void		** tmp_tab_symbols;
+	UINT16		nb_tmp_symbols;
 #endif /* } OF_USE_DECODER */
 
 	void 		**encoding_symbols_tab;
